@@ -124,7 +124,7 @@ mutual
 theorem validateField_sat (S : SchemaView) :
     ∀ (n : FieldNode) (T : String) (len : Nat) (c : FieldConnection),
       c.name = n.name → c.alias = n.alias → WFNode n →
-      Sat (fun s => s = .coercePropertyIndex) (validateField S T len c n) (fun len' => len' = len)
+      Sat (fun _ => False) (validateField S T len c n) (fun len' => len' = len)
   | .mk name alias coercedTo f o t conns tg, T, len, c, hcn, hca, hwf => by
     have hwf' : WFConns conns := by simpa [WFNode] using hwf
     unfold validateField
@@ -146,7 +146,7 @@ theorem validateField_sat (S : SchemaView) :
         | some coerced =>
           simp only
           split
-          · exact rfl
+          · trivial
           · split
             · trivial
             · split
@@ -160,7 +160,7 @@ theorem validateField_sat (S : SchemaView) :
               · trivial
 theorem validateConnections_sat (S : SchemaView) :
     ∀ (l : List (FieldConnection × FieldNode)) (T : String) (len : Nat), WFConns l →
-      Sat (fun s => s = .coercePropertyIndex) (validateConnections S T len l) (fun len' => len' = len)
+      Sat (fun _ => False) (validateConnections S T len l) (fun len' => len' = len)
   | [], _, _, _ => by simp [validateConnections]
   | (c, n) :: rest, T, len, hwf => by
     simp only [WFConns] at hwf
@@ -173,56 +173,153 @@ end
 
 /-! ### `make_ir_for_query` and `frontend::parse` -/
 
-/-- The panic sites that inputs can reach (each with its witness in `Props/C10.lean`). -/
+/-- The panic sites that inputs can reach (each with its witness in `Props/C10.lean`):
+N-2 (F-C10-2), N-6 (F-C10-6), N-4 (F-C10-4). -/
 def KnownSite (s : Site) : Prop :=
-  s = .opsNth2 ∨ s = .coercePropertyIndex ∨ s = .rootEdgeLookup ∨ s = .enumArgument ∨
-  s = .asTagUnwrap ∨ s = .oneOfListDepth ∨ s = .dupOutputVertexIndex ∨ s = .retransform ∨
-  s = .outputListDepth
+  s = .enumArgument ∨ s = .oneOfListDepth ∨ s = .outputListDepth
 
 instance (s : Site) : Decidable (KnownSite s) := by unfold KnownSite; infer_instance
 
-theorem KnownSite.of_fill {r re : Bool} {s : Site} (h : FillSite r re s) : KnownSite s := by
+theorem KnownSite.of_fill {r re : Bool} {s : Site} (h : FillSite r re s) (hr : r = false) :
+    KnownSite s := by
   unfold KnownSite
-  rcases h with ((((h | h) | ⟨h, _⟩) | h) | ⟨h, _⟩)
-  · exact Or.inr (Or.inr (Or.inr (Or.inr (Or.inl h))))
-  · exact Or.inr (Or.inr (Or.inr (Or.inr (Or.inr (Or.inl h)))))
-  · exact Or.inr (Or.inr (Or.inr (Or.inl h)))
-  · exact Or.inr (Or.inr (Or.inr (Or.inr (Or.inr (Or.inr (Or.inl h))))))
-  · exact Or.inr (Or.inr (Or.inr (Or.inr (Or.inr (Or.inr (Or.inr (Or.inl h)))))))
+  rcases h with ((h | ⟨h, _⟩) | ⟨_, h⟩)
+  · exact Or.inr (Or.inl h)
+  · exact Or.inl h
+  · rw [hr] at h; cases h
 
 theorem sat_lift {α : Type} {K : Site → Prop} {x : FRes α} {Q : α → Prop} (h : Sat K x Q) :
     Sat K (FRes.lift x) Q := by
   cases x <;> exact h
 
-theorem fillSite_ne_root {r re : Bool} {s : Site} (h : FillSite r re s) : s ≠ .rootEdgeLookup := by
-  rcases h with ((((h | h) | ⟨h, _⟩) | h) | ⟨h, _⟩) <;> (subst h; decide)
-
-theorem fillSite_retr {r re : Bool} {s : Site} (h : FillSite r re s) (hs : s = .retransform) :
-    r = true := by
-  subst hs
-  rcases h with ((((h | h) | ⟨h, _⟩) | h) | ⟨_, h⟩)
-  · cases h
-  · cases h
-  · cases h
-  · cases h
-  · exact h
-
 theorem fillSite_enum {r re : Bool} {s : Site} (h : FillSite r re s) (hs : s = .enumArgument) :
     re = true := by
   subst hs
-  rcases h with ((((h | h) | ⟨_, h⟩) | h) | ⟨h, _⟩)
-  · cases h
+  rcases h with ((h | ⟨_, h⟩) | ⟨h, _⟩)
   · cases h
   · exact h
   · cases h
+
+/-! ### the parse layer never builds a re-transform (fix of F-7) -/
+
+theorem transformGroupLoop_noRetr (l : List PDir) :
+    ∀ outs tags filts g left, transformGroupLoop outs tags filts l = .ok (g, left) →
+      g.retransform = none := by
+  induction l with
+  | nil =>
+    intro o t f g left h
+    simp [transformGroupLoop] at h
+    rw [← h.1]; rfl
+  | cons x rest ih =>
+    intro o t f g left h
+    cases x <;> simp only [transformGroupLoop] at h
+    case filter x => exact ih _ _ _ _ _ h
+    case output x => exact ih _ _ _ _ _ h
+    case tag x => exact ih _ _ _ _ _ h
+    all_goals cases h
+
+theorem makeFoldGroup_noRetr {l : List PDir} {fg : FoldGroup} (h : makeFoldGroup l = .ok fg) :
+    fg.hasRetr = false := by
+  unfold makeFoldGroup at h
+  split at h
+  · cases h; rfl
+  · simp only [bind_eq_ok] at h
+    obtain ⟨r, hr, h⟩ := h
+    simp at h
+    subst h
+    obtain ⟨g, left⟩ := r
+    have := transformGroupLoop_noRetr _ _ _ _ _ _ hr
+    simp [FoldGroup.hasRetr, this]
+  · cases h
   · cases h
 
-/-- `KnownSite`; N-1 only for a root field called `__typename`; F-7 only when some field carries
-`@fold @transform … @transform`; N-2 only when some field has an enum literal among its
-arguments. -/
+theorem makeFieldConnection_noRetr {h : FieldHead} {c : FieldConnection}
+    (hc : makeFieldConnection h = .ok c) : c.hasRetr = false := by
+  unfold makeFieldConnection at hc
+  simp only [bind_eq_ok] at hc
+  obtain ⟨_, _, _, _, st, _, fold, hfold, hc⟩ := hc
+  simp at hc
+  subst hc
+  unfold foldGroupAfter at hfold
+  split at hfold
+  · cases hfold; rfl
+  · simp only [bind_eq_ok] at hfold
+    obtain ⟨g, hg, hfold⟩ := hfold
+    simp at hfold
+    subst hfold
+    simpa [FieldConnection.hasRetr] using makeFoldGroup_noRetr hg
+
+theorem hasRetrNode_of_connections {n : FieldNode} (h : hasRetrConns n.connections = false) :
+    hasRetrNode n = false := by
+  cases n; simpa [hasRetrNode, FieldNode.connections] using h
+
+mutual
+theorem makeConnection_noRetr : ∀ (s : Selection) (c : FieldConnection) (n : FieldNode),
+    makeConnection s = .ok (c, n) → c.hasRetr = false ∧ hasRetrNode n = false
+  | .spread _ _, c, n, h => by simp [makeConnection] at h
+  | .inline _ _ _, c, n, h => by simp [makeConnection] at h
+  | .field hd sels, c, n, h => by
+    unfold makeConnection at h
+    simp only [bind_eq_ok] at h
+    obtain ⟨edge, hedge, vertex, hvertex, h⟩ := h
+    simp at h
+    obtain ⟨rfl, rfl⟩ := h
+    refine ⟨makeFieldConnection_noRetr hedge, ?_⟩
+    split at hvertex
+    · rename_i tc d inner
+      obtain ⟨cs, hcs, _, _, hn3⟩ := assembleNode_ok hvertex
+      exact hasRetrNode_of_connections (by rw [hn3]; exact makeConnections_noRetr inner cs hcs)
+    · split at hvertex
+      · rename_i r hr
+        exact absurd hvertex (selectionGuard_not_ok hr)
+      · obtain ⟨cs, hcs, _, _, hn3⟩ := assembleNode_ok hvertex
+        exact hasRetrNode_of_connections (by rw [hn3]; exact makeConnections_noRetr sels cs hcs)
+theorem makeConnections_noRetr : ∀ (l : List Selection) (cs : List (FieldConnection × FieldNode)),
+    makeConnections l = .ok cs → hasRetrConns cs = false
+  | [], cs, h => by
+    simp [makeConnections] at h; subst h; simp [hasRetrConns]
+  | s :: rest, cs, h => by
+    unfold makeConnections at h
+    simp only [bind_eq_ok] at h
+    obtain ⟨c, hc, more, hmore, h⟩ := h
+    simp at h
+    subst h
+    obtain ⟨c1, n1⟩ := c
+    obtain ⟨h1, h2⟩ := makeConnection_noRetr s c1 n1 hc
+    simp [hasRetrConns, h1, h2, makeConnections_noRetr rest more hmore]
+end
+
+theorem makeFieldNode_noRetr {h : FieldHead} {sels : List Selection} {n : FieldNode}
+    (hn : makeFieldNode h sels = .ok n) : hasRetrNode n = false := by
+  unfold makeFieldNode at hn
+  split at hn
+  · obtain ⟨cs, hcs, _, _, hn3⟩ := assembleNode_ok hn
+    exact hasRetrNode_of_connections (by rw [hn3]; exact makeConnections_noRetr _ cs hcs)
+  · split at hn
+    · rename_i r hr
+      exact absurd hn (selectionGuard_not_ok hr)
+    · obtain ⟨cs, hcs, _, _, hn3⟩ := assembleNode_ok hn
+      exact hasRetrNode_of_connections (by rw [hn3]; exact makeConnections_noRetr _ cs hcs)
+
+/-- The query `parse_document` returns contains no `@fold @transform … @transform`: the
+`unimplemented!` of mod.rs:1111 (F-7) cannot be reached any more. -/
+theorem parseDocument_noRetr {doc : Doc} {q : Query} (h : parseDocument doc = .ok q) :
+    hasRetrNode q.rootField = false := by
+  unfold parseDocument at h
+  rw [bind_eq_ok] at h
+  obtain ⟨⟨hd, sels⟩, _, h⟩ := h
+  dsimp only at h
+  split at h
+  · cases h
+  · simp only [bind_eq_ok] at h
+    obtain ⟨c, _, _, _, _, _, _, _, n, hn, h⟩ := h
+    simp at h
+    subst h
+    exact makeFieldNode_noRetr hn
+
+/-- `KnownSite`; N-2 only when some field has an enum literal among its arguments. -/
 def RootKnown (q : Query) (s : Site) : Prop :=
-  KnownSite s ∧ (s = .rootEdgeLookup → q.rootField.name = TYPENAME) ∧
-    (s = .retransform → hasRetrNode q.rootField = true) ∧
+  KnownSite s ∧
     (s = .enumArgument →
       argsHaveEnum q.rootConnection.arguments = true ∨ hasEnumNode q.rootField = true)
 
@@ -242,17 +339,22 @@ theorem duplicateRefs_subset (outs : List (String × FieldRefM)) :
 
 theorem makeIrForQuery_sat {S : SchemaView} (hS : ValidSchemaView S) {q : Query}
     (hwf : q.rootConnection.name = q.rootField.name ∧ q.rootConnection.alias = q.rootField.alias ∧
-      WFNode q.rootField) :
+      WFNode q.rootField) (hnoretr : hasRetrNode q.rootField = false) :
     Sat (RootKnown q) (makeIrForQuery S q) (fun _ => True) := by
   unfold makeIrForQuery
   have hval := validateField_sat S q.rootField S.queryType 0 q.rootConnection hwf.1 hwf.2.1 hwf.2.2
   unfold validateQuery
+  by_cases htn : q.rootField.name = TYPENAME
+  · -- `__typename` as the root field is refused by validation (fix of F-C10-1)
+    have : (q.rootField.name == TYPENAME) = true := by simpa using htn
+    rw [if_pos this]
+    trivial
+  have htn' : (q.rootField.name == TYPENAME) = false := by simpa using htn
+  rw [if_neg (by simp [htn'])]
   cases hv : validateField S S.queryType 0 q.rootConnection q.rootField with
   | panic s =>
     rw [hv] at hval
-    simp only [bind_panic]
-    exact ⟨Or.inr (Or.inl hval), fun h => (by rw [hval] at h; cases h),
-      fun h => (by rw [hval] at h; cases h), fun h => (by rw [hval] at h; cases h)⟩
+    exact hval.elim
   | err e => simp only [bind_err]; trivial
   | ok len =>
     simp only [bind_ok]
@@ -264,124 +366,111 @@ theorem makeIrForQuery_sat {S : SchemaView} (hS : ValidSchemaView S) {q : Query}
       simp [getVertexFieldDefinitions, hqt]
     rw [hdef]
     simp only [FRes.lift, bind_ok]
-    by_cases htn : q.rootField.name = TYPENAME
-    · -- N-1
-      have hinfo : getFieldNameAndType qt.fields q.rootField.name q.rootField.coercedTo =
-          .ok (TYPENAME, TYPENAME, TYPENAME, FTy.named "String" false) := by
-        simp [getFieldNameAndType, htn]
-      rw [hinfo]
-      simp only [bind_ok]
-      have hnone : qt.fields.find? (fun f => f.name == TYPENAME) = none := by
-        rw [List.find?_eq_none]
-        intro f hf
-        simpa using hS.fieldNames qt hqtmem f hf
-      simp only [getEdgeDefinition, hdef, bind_ok, hnone, FRes.lift, bind_panic]
-      exact ⟨Or.inr (Or.inr (Or.inl rfl)), fun _ => htn, fun h => (by cases h), fun h => (by cases h)⟩
-    · rcases hchild.2.2 with h | ⟨fd, hfield, hco⟩
-      · exact absurd h htn
-      obtain ⟨t', ht', _, _, hfind, hfdmem, hfdname⟩ := field_eq_some hfield
-      have htt : t' = qt := by rw [hqt] at ht'; exact (Option.some.inj ht').symm
-      rw [htt] at hfind hfdmem
-      have hinfo : getFieldNameAndType qt.fields q.rootField.name q.rootField.coercedTo =
-          .ok (fd.name, fd.ty.base, q.rootField.coercedTo.getD fd.ty.base, fd.ty) := by
-        have : (q.rootField.name == TYPENAME) = false := by simpa using htn
-        simp [getFieldNameAndType, this, hfind]
-      rw [hinfo]
-      simp only [bind_ok]
-      have hfield' : S.field S.queryType fd.name = some fd := by rw [hfdname]; exact hfield
-      rw [getEdgeDefinition_of_field hfield']
-      simp only [FRes.lift, bind_ok]
-      refine Sat.bind (sat_lift ((makeEdgeParameters_sat fd q.rootConnection.arguments
-        (hS.paramsDistinct qt hqtmem fd hfdmem)).monoK
-        (fun s h => ⟨Or.inr (Or.inr (Or.inr (Or.inl h.1))), fun h' => (by rw [h.1] at h'; cases h'),
-          fun h' => (by rw [h.1] at h'; cases h'), fun _ => Or.inl h.2⟩)))
-        fun paramErrs _ => ?_
-      -- the root component
-      have hpostvt : S.isVertexType (q.rootField.coercedTo.getD fd.ty.base) = true := by
-        cases hc : q.rootField.coercedTo with
-        | none => simpa using hS.rootEdges qt hqtmem hqtname fd hfdmem
-        | some c' => simp only [hc] at hco; simpa using hco.1
-      have hsubvalid : ValidNode S (q.rootField.coercedTo.getD fd.ty.base) q.rootField := by
-        cases hc : q.rootField.coercedTo with
-        | none => simp only [hc] at hco; simpa using hco
-        | some c' => simp only [hc] at hco; simpa using hco.2
-      let st1 : St := (⟨2, 1, [1], [], [], [], [], [], [], []⟩ : St).outputsBeginSubcomponent
-      have hinv1 : st1.Inv :=
-        ⟨by simp [st1, St.outputsBeginSubcomponent], by simp [st1, St.outputsBeginSubcomponent],
-         by simp [st1, St.outputsBeginSubcomponent], by simp [st1, St.outputsBeginSubcomponent],
-         by simp [st1, St.outputsBeginSubcomponent]⟩
-      have hout1 : 0 < st1.outStack.length := by simp [st1, St.outputsBeginSubcomponent]
-      have hempty : CD.Inv S st1 CD.empty :=
-        ⟨by simp [CD.empty], by simp [CD.empty], by simp [CD.empty], by simp [CD.empty],
-         by simp [CD.empty]⟩
-      refine Sat.bind (sat_lift ((fillNode_sat hS q.rootField 1 fd.ty.base _ st1 CD.empty hinv1 hout1
-        hempty (by simp [CD.empty]) (by simp [st1, St.outputsBeginSubcomponent]) hpostvt rfl
-        hsubvalid).monoK (fun _ h => ⟨KnownSite.of_fill h, fun h' => absurd h' (fillSite_ne_root h),
-          fun h' => fillSite_retr h h', fun h' => Or.inr (fillSite_enum h h')⟩)))
-        fun r hr => ?_
-      obtain ⟨hpost, _⟩ := hr
-      have hout_r : 0 < r.1.outStack.length := Nat.lt_of_lt_of_le hout1 hpost.step.outLen
-      have hflag : EdgesFlag (hasEnumNode q.rootField) r.2.1 := by
-        intro e he
-        rcases hpost.flag e he with h | h
-        · simp [CD.empty] at h
-        · exact h
-      refine Sat.bind (sat_lift ((componentPost_sat hS hpost.step.inv hout_r hpost.cdInv r.2.2
-        hflag).monoK
-        (fun _ h => ⟨KnownSite.of_fill (r := false) (Or.inl h),
-          fun h' => absurd h' (fillSite_ne_root (r := false) (Or.inl h)),
-          fun h' => absurd (fillSite_retr (r := false) (Or.inl h) h') (by decide),
-          fun h' => Or.inr (fillSite_enum (r := false) (Or.inl h) h')⟩)))
-        fun c hc => ?_
-      obtain ⟨_, _, hc_vs, _, _, _, hc_go, _, hc_err, hc_ok⟩ := hc
-      split
-      · rename_i es herr
-        exact errorsInto_sat (fun h => hc_err es herr (List.append_eq_nil_iff.mp h).2)
-      · rename_i comp hok
-        obtain ⟨hfill, hlen, hvids⟩ := hc_ok comp hok
-        -- `output_handler.finish()`: both stacks are empty again
-        have hvs : c.1.vidStack = [] := by
-          rw [hc_vs, hpost.step.vidStack]; simp [st1, St.outputsBeginSubcomponent]
-        have hos : c.1.outStack = [] := by
-          have h1 := hpost.step.outLenExact hfill
-          have h2 : st1.outStack.length = 1 := by simp [st1, St.outputsBeginSubcomponent]
-          exact List.eq_nil_of_length_eq_zero (by omega)
-        have hfin : (!(c.1.vidStack.isEmpty && c.1.outStack.isEmpty)) = false := by
-          simp [hvs, hos]
-        rw [hfin]
-        simp only [Bool.false_eq_true, ↓reduceIte]
-        refine Sat.bind (P := fun _ => True) ?_ fun dupErrs _ => ?_
+    rcases hchild.2.2 with h | ⟨fd, hfield, hco⟩
+    · exact absurd h htn
+    obtain ⟨t', ht', _, _, hfind, hfdmem, hfdname⟩ := field_eq_some hfield
+    have htt : t' = qt := by rw [hqt] at ht'; exact (Option.some.inj ht').symm
+    rw [htt] at hfind hfdmem
+    have hinfo : getFieldNameAndType qt.fields q.rootField.name q.rootField.coercedTo =
+        .ok (fd.name, fd.ty.base, q.rootField.coercedTo.getD fd.ty.base, fd.ty) := by
+      simp [getFieldNameAndType, htn', hfind]
+    rw [hinfo]
+    simp only [bind_ok]
+    have hfield' : S.field S.queryType fd.name = some fd := by rw [hfdname]; exact hfield
+    rw [getEdgeDefinition_of_field hfield']
+    simp only [FRes.lift, bind_ok]
+    refine Sat.bind (sat_lift ((makeEdgeParameters_sat fd q.rootConnection.arguments
+      (hS.paramsDistinct qt hqtmem fd hfdmem)).monoK
+      (fun s h => ⟨Or.inl h.1, fun _ => Or.inl h.2⟩)))
+      fun paramErrs _ => ?_
+    -- the root component
+    have hpostvt : S.isVertexType (q.rootField.coercedTo.getD fd.ty.base) = true := by
+      cases hc : q.rootField.coercedTo with
+      | none => simpa using hS.rootEdges qt hqtmem hqtname fd hfdmem
+      | some c' => simp only [hc] at hco; simpa using hco.1
+    have hsubvalid : ValidNode S (q.rootField.coercedTo.getD fd.ty.base) q.rootField := by
+      cases hc : q.rootField.coercedTo with
+      | none => simp only [hc] at hco; simpa using hco
+      | some c' => simp only [hc] at hco; simpa using hco.2
+    let st1 : St := (⟨2, 1, [1], [], [], [], [], [], [], []⟩ : St).outputsBeginSubcomponent
+    have hinv1 : st1.Inv :=
+      ⟨by simp [st1, St.outputsBeginSubcomponent], by simp [st1, St.outputsBeginSubcomponent],
+       by simp [st1, St.outputsBeginSubcomponent], by simp [st1, St.outputsBeginSubcomponent],
+       by simp [st1, St.outputsBeginSubcomponent]⟩
+    have hout1 : 0 < st1.outStack.length := by simp [st1, St.outputsBeginSubcomponent]
+    have hempty : CD.Inv S st1 CD.empty :=
+      ⟨by simp [CD.empty], by simp [CD.empty], by simp [CD.empty], by simp [CD.empty],
+       by simp [CD.empty]⟩
+    refine Sat.bind (sat_lift ((fillNode_sat hS q.rootField 1 fd.ty.base _ st1 CD.empty hinv1 hout1
+      hempty (by simp [CD.empty]) (by simp [st1, St.outputsBeginSubcomponent]) hpostvt rfl
+      hsubvalid).monoK (fun _ h => ⟨KnownSite.of_fill h hnoretr,
+        fun h' => Or.inr (fillSite_enum h h')⟩)))
+      fun r hr => ?_
+    obtain ⟨hpost, _⟩ := hr
+    have hout_r : 0 < r.1.outStack.length := Nat.lt_of_lt_of_le hout1 hpost.step.outLen
+    have hflag : EdgesFlag (hasEnumNode q.rootField) r.2.1 := by
+      intro e he
+      rcases hpost.flag e he with h | h
+      · simp [CD.empty] at h
+      · exact h
+    have htopc : r.2.2 = [] → ∀ o ∈ r.1.topMap, o.2.vid ∈ cdVids r.2.1 := by
+      intro h0 o ho
+      rcases (hpost.tops h0).2 o ho with h | h
+      · simp [St.topMap, st1, St.outputsBeginSubcomponent] at h
+      · exact h
+    refine Sat.bind (sat_lift ((componentPost_sat hS hpost.step.inv hout_r hpost.cdInv r.2.2
+      hflag htopc).monoK
+      (fun _ h => ⟨KnownSite.of_fill (r := false) (Or.inl h) rfl,
+        fun h' => Or.inr (fillSite_enum (r := false) (Or.inl h) h')⟩)))
+      fun c hc => ?_
+    obtain ⟨_, _, hc_vs, _, _, _, hc_go, _, hc_err, hc_ok⟩ := hc
+    split
+    · rename_i es herr
+      exact errorsInto_sat (fun h => hc_err es herr (List.append_eq_nil_iff.mp h).2)
+    · rename_i comp hok
+      obtain ⟨hfill, hlen, _, hvids⟩ := hc_ok comp hok
+      -- `output_handler.finish()`: both stacks are empty again
+      have hvs : c.1.vidStack = [] := by
+        rw [hc_vs, hpost.step.vidStack]; simp [st1, St.outputsBeginSubcomponent]
+      have hos : c.1.outStack = [] := by
+        have h1 := hpost.step.outLenExact hfill
+        have h2 : st1.outStack.length = 1 := by simp [st1, St.outputsBeginSubcomponent]
+        exact List.eq_nil_of_length_eq_zero (by omega)
+      have hfin : (!(c.1.vidStack.isEmpty && c.1.outStack.isEmpty)) = false := by
+        simp [hvs, hos]
+      rw [hfin]
+      simp only [Bool.false_eq_true, ↓reduceIte]
+      refine Sat.bind (P := fun _ => True) ?_ fun dupErrs _ => ?_
+      · split
         · split
-          · split
-            · trivial
-            · rename_i hall
-              exfalso
-              apply hall
-              rw [List.all_eq_true]
-              intro f hf
-              obtain ⟨o, ho, hof⟩ := duplicateRefs_subset _ f hf
-              have hnew := hpost.outs hfill
-              rw [hc_go] at ho
-              rcases hnew o ho with h | h
-              · simp [st1, St.outputsBeginSubcomponent] at h
-              · rw [hvids, ← hof]
-                simpa using h
           · trivial
-        · generalize (_ ++ dupErrs : List FrontErr) = errors
-          by_cases hE : errors = []
-          · subst hE
-            simp only [List.isEmpty_nil, Bool.not_true, Bool.false_eq_true, ↓reduceIte]
-            split
-            · trivial
-            · exact ⟨Or.inr (Or.inr (Or.inr (Or.inr (Or.inr (Or.inr (Or.inr (Or.inr rfl))))))),
-                fun h => (by cases h), fun h => (by cases h), fun h => (by cases h)⟩
-          · have : (!errors.isEmpty) = true := by simpa using hE
-            rw [if_pos this]
-            exact errorsInto_sat hE
+          · rename_i hall
+            exfalso
+            apply hall
+            rw [List.all_eq_true]
+            intro f hf
+            obtain ⟨o, ho, hof⟩ := duplicateRefs_subset _ f hf
+            have hnew := hpost.outs hfill
+            rw [hc_go] at ho
+            rcases hnew o ho with h | h
+            · simp [st1, St.outputsBeginSubcomponent] at h
+            · rw [hvids, ← hof]
+              simpa using h
+        · trivial
+      · generalize (_ ++ dupErrs : List FrontErr) = errors
+        by_cases hE : errors = []
+        · subst hE
+          simp only [List.isEmpty_nil, Bool.not_true, Bool.false_eq_true, ↓reduceIte]
+          split
+          · trivial
+          · exact ⟨Or.inr (Or.inr rfl), fun h => (by cases h)⟩
+        · have : (!errors.isEmpty) = true := by simpa using hE
+          rw [if_pos this]
+          exact errorsInto_sat hE
 
 /-- Every panic of the modelled `frontend::parse` (parse layer, frontend, `IndexedQuery`
-conversion) on a document the text parser can produce, against a schema satisfying
-`ValidSchemaView`, is at one of the nine sites of `KnownSite`. -/
+conversion), against a schema satisfying `ValidSchemaView`, is at a site of `KnownSite` or at
+one of the two parse-layer sites that need a document the text grammar cannot produce. -/
 theorem compile_panic_known {S : SchemaView} (hS : ValidSchemaView S) {doc : Doc} {s : Site}
     (hpanic : compile S doc = .panic s) :
     KnownSite s ∨ s = .opsMultipleEmpty ∨ s = .rootItemsIndex := by
@@ -391,47 +480,14 @@ theorem compile_panic_known {S : SchemaView} (hS : ValidSchemaView S) {doc : Doc
     rw [hp] at hpanic
     cases hpanic
     have := tryGetQueryRoot_panic (parseDocument_panic hp)
-    rcases this.2 with ⟨h, _⟩ | ⟨h, _⟩ | ⟨h, _⟩
-    · exact Or.inl (Or.inl h)
+    rcases this.2 with ⟨h, _⟩ | ⟨h, _⟩
     · exact Or.inr (Or.inl h)
     · exact Or.inr (Or.inr h)
   | err e => rw [hp] at hpanic; cases hpanic
   | ok q =>
     rw [hp] at hpanic
-    exact Or.inl ((makeIrForQuery_sat hS (parseDocument_wf hp)).panic_site hpanic).1
-
-/-- N-1 exactly on the root field: the `unreachable!()` of mod.rs:130 is reached for the root
-field only when it is called `__typename`. -/
-theorem compile_rootEdgeLookup {S : SchemaView} (hS : ValidSchemaView S) {doc : Doc}
-    (hpanic : compile S doc = .panic .rootEdgeLookup) :
-    ∃ q, parseDocument doc = .ok q ∧ q.rootField.name = TYPENAME := by
-  unfold compile at hpanic
-  cases hp : parseDocument doc with
-  | panic s' =>
-    rw [hp] at hpanic
-    cases hpanic
-    have := tryGetQueryRoot_panic (parseDocument_panic hp)
-    rcases this.2 with ⟨h, _⟩ | ⟨h, _⟩ | ⟨h, _⟩ <;> cases h
-  | err e => rw [hp] at hpanic; cases hpanic
-  | ok q =>
-    rw [hp] at hpanic
-    exact ⟨q, rfl, ((makeIrForQuery_sat hS (parseDocument_wf hp)).panic_site hpanic).2.1 rfl⟩
-
-/-- F-7 only if some field of the query carries `@fold @transform … @transform`. -/
-theorem compile_retransform {S : SchemaView} (hS : ValidSchemaView S) {doc : Doc}
-    (hpanic : compile S doc = .panic .retransform) :
-    ∃ q, parseDocument doc = .ok q ∧ hasRetrNode q.rootField = true := by
-  unfold compile at hpanic
-  cases hp : parseDocument doc with
-  | panic s' =>
-    rw [hp] at hpanic
-    cases hpanic
-    have := tryGetQueryRoot_panic (parseDocument_panic hp)
-    rcases this.2 with ⟨h, _⟩ | ⟨h, _⟩ | ⟨h, _⟩ <;> cases h
-  | err e => rw [hp] at hpanic; cases hpanic
-  | ok q =>
-    rw [hp] at hpanic
-    exact ⟨q, rfl, ((makeIrForQuery_sat hS (parseDocument_wf hp)).panic_site hpanic).2.2.1 rfl⟩
+    exact Or.inl ((makeIrForQuery_sat hS (parseDocument_wf hp)
+      (parseDocument_noRetr hp)).panic_site hpanic).1
 
 /-- N-2 only if some field of the query has an enum literal among its arguments. -/
 theorem compile_enumArgument {S : SchemaView} (hS : ValidSchemaView S) {doc : Doc}
@@ -444,10 +500,11 @@ theorem compile_enumArgument {S : SchemaView} (hS : ValidSchemaView S) {doc : Do
     rw [hp] at hpanic
     cases hpanic
     have := tryGetQueryRoot_panic (parseDocument_panic hp)
-    rcases this.2 with ⟨h, _⟩ | ⟨h, _⟩ | ⟨h, _⟩ <;> cases h
+    rcases this.2 with ⟨h, _⟩ | ⟨h, _⟩ <;> cases h
   | err e => rw [hp] at hpanic; cases hpanic
   | ok q =>
     rw [hp] at hpanic
-    exact ⟨q, rfl, ((makeIrForQuery_sat hS (parseDocument_wf hp)).panic_site hpanic).2.2.2 rfl⟩
+    exact ⟨q, rfl, ((makeIrForQuery_sat hS (parseDocument_wf hp)
+      (parseDocument_noRetr hp)).panic_site hpanic).2 rfl⟩
 
 end TF.FE
